@@ -22,10 +22,13 @@ use std::sync::atomic::Ordering;
 use std::sync::Mutex;
 use vx_kit::{Check, Local};
 
-pub const FLUSH_EVERY: u64 = 64;
+pub const FLUSH_EVERY: u64 = 256;
+/// per-case budget in CPU time of the process (independent of the load of the machine) ...
 pub const CASE_BUDGET_MS: u64 = 5_000;
+/// ... and in wall-clock time (backstop for a subject that blocks without computing)
+pub const CASE_WALL_BUDGET_MS: u64 = 120_000;
 /// address-space cap of a worker
-pub const WORKER_AS_BYTES: u64 = 1 << 30;
+pub const WORKER_AS_BYTES: u64 = 256 << 20;
 
 pub type RunCase = fn(&mut Ctx, u64);
 
@@ -66,6 +69,10 @@ pub fn child_after_fork(rfd: i32, wfd: i32) {
         libc::close(rfd);
         libc::dup2(wfd, 2);
         libc::close(wfd);
+        // the CPU clock of a forked child starts at zero: the budget is enforced by the kernel
+        let secs = (CASE_BUDGET_MS / 1000) as libc::rlim_t;
+        let lim = libc::rlimit { rlim_cur: secs, rlim_max: secs + 1 };
+        libc::setrlimit(libc::RLIMIT_CPU, &lim);
     }
 }
 
@@ -84,7 +91,7 @@ pub fn wait_child(pid: i32, rfd: i32, wfd: i32) -> Option<Death> {
         if r == pid || r < 0 {
             break;
         }
-        if start.elapsed().as_millis() as u64 > CASE_BUDGET_MS {
+        if start.elapsed().as_millis() as u64 > CASE_WALL_BUDGET_MS {
             hang = true;
             unsafe {
                 libc::kill(pid, libc::SIGKILL);
@@ -109,7 +116,7 @@ pub fn wait_child(pid: i32, rfd: i32, wfd: i32) -> Option<Death> {
     }
     unsafe { libc::close(rfd) };
     let stderr = String::from_utf8_lossy(&err).into_owned();
-    if hang {
+    if hang || (libc::WIFSIGNALED(status) && (libc::WTERMSIG(status) == libc::SIGXCPU || libc::WTERMSIG(status) == libc::SIGKILL)) {
         return Some(Death { how: "hang".into(), hang: true, stderr });
     }
     if libc::WIFEXITED(status) && libc::WEXITSTATUS(status) == 0 {
@@ -167,7 +174,8 @@ pub fn worker_main(args: &[String], resolve: &dyn Fn(&str) -> Option<(&'static s
         }
         i += 1;
     }
-    cx.scratch = out.with_extension("dcm");
+    // scratch file of the open_file entry points: memory-backed when possible (deleted at the end)
+    cx.scratch = if Path::new("/dev/shm").is_dir() { PathBuf::from(format!("/dev/shm/vx-robust-{}.dcm", std::process::id())) } else { out.with_extension("dcm") };
     let prog_path = out.with_extension("prog");
     cx.progress = Progress::map(&prog_path).unwrap_or_else(|e| {
         eprintln!("cannot map progress file: {e}");
@@ -232,7 +240,8 @@ fn run_block_in_child(cx: &mut Ctx, run: RunCase, a: u64, b: u64, out: &Path, pr
         std::thread::spawn(move || loop {
             std::thread::sleep(std::time::Duration::from_millis(100));
             let s = CASE_START_MS.load(Ordering::Relaxed);
-            if s != 0 && crate::acc::now_ms().saturating_sub(s) > CASE_BUDGET_MS {
+            let c = crate::acc::CASE_START_CPU_MS.load(Ordering::Relaxed);
+            if s != 0 && (crate::acc::cpu_ms().saturating_sub(c) > CASE_BUDGET_MS || crate::acc::now_ms().saturating_sub(s) > CASE_WALL_BUDGET_MS) {
                 if let Some(p) = &prog {
                     p.set_state(2);
                 }
